@@ -23,8 +23,23 @@
 #include <blocc/parser.h>
 #include <blocc/debug.h>
 
+#include <cstdint>
+
 namespace bloc
 {
+
+/* a decimal position or count, clamped to the integer range (the conversion is
+ * undefined outside of it) */
+static inline Integer clamp_to_integer(Numeric d)
+{
+  if (d != d)
+    return 0;
+  if (d >= 9223372036854775808.0)
+    return INT64_MAX;
+  if (d < -9223372036854775808.0)
+    return INT64_MIN;
+  return static_cast<Integer>(d);
+}
 
 Value& SUBSTRExpression::value(Context & ctx) const
 {
@@ -53,7 +68,7 @@ Value& SUBSTRExpression::value(Context & ctx) const
     case Type::NUMERIC:
       if (a1.isNull())
         return val;
-      a = Integer(*a1.numeric());
+      a = clamp_to_integer(*a1.numeric());
       break;
     default:
       throw RuntimeError(EXC_RT_FUNC_ARG_TYPE_S, KEYWORDS[oper]);
@@ -78,7 +93,7 @@ Value& SUBSTRExpression::value(Context & ctx) const
       case Type::NUMERIC:
         if (a2.isNull())
           return val;
-        b = Integer(*a2.numeric());
+        b = clamp_to_integer(*a2.numeric());
         break;
       default:
         throw RuntimeError(EXC_RT_FUNC_ARG_TYPE_S, KEYWORDS[oper]);
@@ -87,7 +102,8 @@ Value& SUBSTRExpression::value(Context & ctx) const
     if (c == 0)
       return val;
     a = (a < 0 ? a + c : a);
-    b = std::max<int64_t>(std::min(b, c - a), 0L);
+    /* a position before the start selects nothing (and c - a must not overflow) */
+    b = (a < 0 ? 0 : std::max<int64_t>(std::min(b, c - a), 0L));
     if (a >= 0 && b > 0)
     {
       if (val.lvalue())
